@@ -1,15 +1,24 @@
 #!/bin/sh
 # MANIFEST.setup_cmd — builds the Lean library (models, proofs, drivers) and the Rust harness, offline.
-set -e
+# Every ./check rebuilds what it needs itself; this only warms the build caches, so a failure of one
+# module is reported but does not stop the others.
 cd "$(dirname "$0")"
 export CARGO_NET_OFFLINE=true
-if [ -f tools/extract_tables.py ]; then python3 tools/extract_tables.py /repo lean/CalVerif/Gen; fi
+if [ -f tools/extract_tables.py ]; then python3 tools/extract_tables.py /repo lean/CalVerif/Gen || echo "WARN: table translator failed"; fi
 python3 tools/gen_root.py
-(cd lean && lake build CalVerif)
 for f in lean/Driver/C*.lean; do
   n=$(basename "$f" .lean | tr 'A-Z' 'a-z')
-  (cd lean && lake build "drv_$n")
+  (cd lean && lake build "drv_$n" >/dev/null 2>&1) || echo "WARN: driver drv_$n did not build"
+done
+for f in lean/CalVerif/Props/C*.lean; do
+  m=$(basename "$f" .lean)
+  (cd lean && lake build "CalVerif.Props.$m" >/dev/null 2>&1) || echo "WARN: CalVerif.Props.$m did not build"
 done
 [ -f harness/Cargo.lock ] || cp /repo/Cargo.lock harness/Cargo.lock
-(cd harness && cargo build --release --offline --bins 2>&1 | tail -3)
+(cd harness && cargo build --release --offline --bins 2>&1 | tail -2) || true
+for f in harness/src/bin/c*.rs; do
+  b=$(basename "$f" .rs)
+  [ -x "harness/target/release/$b" ] || (cd harness && cargo build --release --offline --bin "$b" >/dev/null 2>&1) || echo "WARN: harness binary $b did not build"
+done
 echo setup done
+exit 0
